@@ -3,6 +3,7 @@ package main
 import (
 	"fmt"
 	"go/types"
+	"os"
 	"regexp"
 	"strings"
 	"sync"
@@ -555,6 +556,9 @@ func (e *Engine) comp(root types.Type, path []pathElem, suffix, leaf string) *co
 func (e *Engine) lateHavoc(c *component) {
 	for _, keys := range e.pendingWrites {
 		if e.inModSet(keys, c.key) {
+			if os.Getenv("GOVC_DEBUG") != "" {
+				fmt.Fprintf(os.Stderr, "late havoc of %s because of write set %v\n", c.key, keys)
+			}
 			name := e.sc.freshName("Hlate_" + c.key)
 			e.sc.declared[name] = c.sort
 			e.sc.add(fmt.Sprintf("(declare-const %s %s)", name, c.sort))
